@@ -10,7 +10,7 @@ def job(h, qc, qs, tc, ts, max_size=100, fuzz_secs=0, fuzz_procs=4, **kw):
 
 CHECKS = {
     "C20": {
-        "jobs": [job("h_numbers", 30000, 8, 400000, 16, fuzz_secs=240, fuzz_procs=8)],
+        "jobs": [job("h_numbers", 80000, 8, 400000, 16, fuzz_secs=240, fuzz_procs=8)],
         "rule": "choice-tape cases, each 1-4 rounds of {z_number vs __int128 differential, identities on operands "
                 "built from decimal strings up to 60 digits, q_number vs exact rational, safe_i64 vs __int128, linear "
                 "expression/constraint/system checks over <=6 variables and 3-6 valuations}; non-trivial = an operand beyond "
@@ -21,7 +21,7 @@ CHECKS = {
         "min_nontrivial_frac": 0.2,
     },
     "C07": {
-        "jobs": [job("h_wto", 40000, 8, 400000, 16, fuzz_secs=240, fuzz_procs=8)],
+        "jobs": [job("h_wto", 100000, 8, 400000, 16, fuzz_secs=240, fuzz_procs=8)],
         "rule": "choice-tape digraphs with 1..14 nodes (4 shapes: raw edge list, bitmask sparse..dense, structured seq/if/while/do-while "
                 "plus gotos, chain with back/forward jumps), any entry node, decoded successor insertion order; each graph is checked as "
                 "wto<cfg_ref>, its clone(), wto<cfg_rev> and wto<call_graph_ref>; non-trivial = two cycles nested or sharing a node "
@@ -30,7 +30,7 @@ CHECKS = {
         "min_nontrivial_frac": 0.2,
     },
     "C19": {
-        "jobs": [job("h_patricia", 12000, 8, 150000, 16, fuzz_secs=240, fuzz_procs=8)],
+        "jobs": [job("h_patricia", 30000, 8, 150000, 16, fuzz_secs=240, fuzz_procs=8)],
         "rule": "operation histories (<=32 steps) over 4 separate_domain environments sharing structure through copies, keys = indexable with "
                 "arbitrary 64-bit indices (dense, 2^k, 2^k+-1, 2^63+d, clustered prefixes), value lattices interval/constant/boolean/discrete_domain, "
                 "compared after every step with a std::map model (at, find, iteration, size, is_top, is_bottom, <= between all pairs); plus "
@@ -41,7 +41,7 @@ CHECKS = {
         "min_nontrivial_frac": 0.2,
     },
     "C08": {
-        "jobs": [job("h_scalar", 40000, 8, 500000, 16, fuzz_secs=240, fuzz_procs=8)],
+        "jobs": [job("h_scalar", 120000, 8, 500000, 16, fuzz_secs=240, fuzz_procs=8)],
         "rule": "pairs of abstract scalars (bound, interval<z>, interval<q>, congruence, interval_congruence, sign, constant, small_range, "
                 "boolean_value, dis_interval) built through public constructors/operators x every operation; up to 8 concrete members are sampled "
                 "per operand (bounds, neighbours, 0, +-1, 2^40/2^70 for infinite bounds, b+a*k) and every defined concrete result must be a member "
@@ -52,8 +52,8 @@ CHECKS = {
         "min_nontrivial_frac": 0.2,
     },
     "C13": {
-        "jobs": [job("h_wrapint", 40000, 8, 500000, 16, fuzz_secs=240, fuzz_procs=8),
-                 job("h_fwd-wint", 1500, 2, 20000, 4, fuzz_secs=300, fuzz_procs=2)],
+        "jobs": [job("h_wrapint", 100000, 8, 500000, 16, fuzz_secs=240, fuzz_procs=8),
+                 job("h_fwd-wint", 3000, 2, 20000, 4, fuzz_secs=300, fuzz_procs=2)],
         "rule": "(a) wrapint: widths 1..64, operands biased to 0, 1, 2^(w-1)+-1, 2^w-1, every public operation against a uint64/__int128 reference; "
                 "(b) wrapped_interval: (start,end,w) incl. pole-crossing, top, bottom, singletons, every operation; exhaustive over gamma(a) x gamma(b) "
                 "for w <= 6, sampled members otherwise, membership through at(wrapint); non-trivial = (a) the w-bit result differs from the unbounded "
@@ -70,7 +70,7 @@ CHECKS = {
         "min_nontrivial_frac": 0.2,
     },
     "C06": {
-        "jobs": [job("h_fixpo_exact", 15000, 8, 150000, 16, fuzz_secs=180, fuzz_procs=8)],
+        "jobs": [job("h_fixpo_exact", 40000, 8, 150000, 16, fuzz_secs=180, fuzz_procs=8)],
         "rule": "part 1 (3/4 of cases): digraph CFGs of 1..10 blocks over a finite state space Z_m^k (<= 64 states) with harness-interpreted finite "
                 "statements, a client subclass of interleaved_fwd_fixpoint_iterator over 64-bit state sets (join=widening=union, meet=narrowing="
                 "intersection), any start block with empty WTO nesting, 0..3 assumption sets, delays 0..5, descending 0..3, compared for EQUALITY "
@@ -144,11 +144,12 @@ CHECKS["C05"] = {
 }
 CHECKS["C16"] = {
     "jobs": [job("h_hist-" + d, 1500, 2, 30000, 4, fuzz_secs=300, fuzz_procs=2, env={"VERIF_TAPE_SCALE": "12"}) for d in HIST_Q] +
-            [job("h_histg-" + d, 1500, 2, 30000, 4, env={"VERIF_TAPE_SCALE": "12"}) for d in HISTG_Q],
+            [job("h_histg-" + d, 1500, 2, 30000, 4, env={"VERIF_TAPE_SCALE": "12"}) for d in HISTG_Q] +
+            [job("h_histv-" + d, 1500, 1, 30000, 2, env={"VERIF_TAPE_SCALE": "12"}) for d in HISTG_Q],
     "rule": "the C03 histories with (i) copy isolation: after a copy, an observation snapshot (is_bottom, is_top, at(v) for all v, 8 entailment probes) "
             "of every value not operated on by a step must be unchanged after that step and its witnesses must remain members; (ii) queries, "
-            "operator[], normalize(), minimize() leave the value <=-equal to a pre-copy and keep all witnesses; (iii) h_histg: the same history on D "
-            "and on abstract_domain_ref<var>(D) must give equal snapshots and equal <= answers after every step; non-trivial = a copy followed by "
+            "operator[], normalize(), minimize() leave the value <=-equal to a pre-copy and keep all witnesses; (iii) h_histg / h_histv: the same history on D "
+            "and on abstract_domain_ref<var>(D) resp. abstract_domain<var>(D) must give equal snapshots and equal <= answers after every step; non-trivial = a copy followed by "
             ">= 2 mutations and >= 1 observation of an untouched value; distinct = hash of the decoded history",
     "assumptions": PROG_ASSUME + ["snapshots are taken twice at copy time so that lazily cached representation changes settle before comparison"],
     "min_nontrivial_frac": 0.05,
@@ -156,7 +157,7 @@ CHECKS["C16"] = {
 
 EXACT_V = ["itv", "sdbm", "dbm", "soct", "lift"]
 CHECKS["C12"] = {
-    "jobs": [job("h_exact-" + v, 1500, 2, 20000, 3, fuzz_secs=0) for v in EXACT_V],
+    "jobs": [job("h_exact-" + v, 6000, 3, 20000, 3, fuzz_secs=0) for v in EXACT_V],
     "rule": "part A (model based): histories of 1-16 steps over 4 abstract values and <=4 variables inside the box [-B,B]^n (B<=4, optionally shifted by "
             "per-variable offsets up to 2^40 to exercise large constants): assume of 1-3 constraints of the domain's own language (+-x<=k; x-y<=k for "
             "zones; +-x+-y<=k for octagons; several syntactic forms, == included), join, meet, forget/project, copy, normalize/minimize, for "
@@ -194,7 +195,7 @@ CHECKS["C14"] = {
 }
 
 CHECKS["C17"] = {
-    "jobs": [job("h_transform", 6000, 8, 80000, 16, fuzz_secs=300, fuzz_procs=4, env={"VERIF_TAPE_SCALE": "12"})],
+    "jobs": [job("h_transform", 25000, 8, 80000, 16, fuzz_secs=300, fuzz_procs=4, env={"VERIF_TAPE_SCALE": "12"})],
     "rule": "functions f() -> outputs (0-3 outputs, possibly arrays) built by the program generator: structured shapes, structured + decorations "
             "(dead-end blocks, blocks unreachable from the entry, self loops, extra edges, edges back to the entry) and unstructured digraphs, always with an "
             "exit block (whose outgoing edges are removed), numeric/boolean/array statements without division, `unreachable` in the middle of blocks, "
@@ -211,7 +212,7 @@ CHECKS["C17"] = {
     "min_nontrivial_frac": 0.1,
 }
 CHECKS["C18"] = {
-    "jobs": [job("h_dataflow", 6000, 8, 80000, 16, fuzz_secs=300, fuzz_procs=4, env={"VERIF_TAPE_SCALE": "12"})],
+    "jobs": [job("h_dataflow", 25000, 8, 80000, 16, fuzz_secs=300, fuzz_procs=4, env={"VERIF_TAPE_SCALE": "12"})],
     "rule": "the C17 function generator. Liveness: a base execution keeps a snapshot at the end of every block; at 1-4 fork points every variable that "
             "live_and_dead_analysis reports as not live at the end of the block is perturbed (int +-d, bool flip, one array cell) in a copy of the execution "
             "that continues with the same remaining choices: block path, evaluated conditions with outcomes, assertion outcomes, end kind and outputs at exit "
@@ -232,7 +233,7 @@ CALL_ASSUME = ["calls: fresh frame; inputs := actuals simultaneously; other call
                "callees never assign their inputs; inputs and outputs are disjoint (cfg.hpp / top_down_inter_analyzer.hpp header comments)",
                "concrete recursion is cut at call depth 6 (truncated, counted)"]
 CHECKS["C09"] = {
-    "jobs": [job("h_inter-" + d, 1500, 2, 25000, 4, fuzz_secs=300, fuzz_procs=2) for d in TD_Q],
+    "jobs": [job("h_inter-" + d, 8000, 2, 40000, 4, fuzz_secs=300, fuzz_procs=2) for d in TD_Q],
     "rule": "call graphs of 1-5 functions sharing one variable factory (names private or drawn from small shared pools so that caller/callee/formal/actual names collide; permuted, "
             "repeated and constant actuals; lhs that are also arguments; DAGs, direct and mutual recursion (~18 %), orphan entry functions) analysed by top_down_inter_analyzer "
             "with ALL parameters decoded (max_call_contexts inf/1/2/3, exact vs approximate reuse, precise vs imprecise recursion, delay, descending iterations, thresholds, "
@@ -244,7 +245,7 @@ CHECKS["C09"] = {
     "min_nontrivial_frac": 0.1,
 }
 CHECKS["C10"] = {
-    "jobs": [job("h_inter-" + d, 2000, 1, 25000, 3, fuzz_secs=300, fuzz_procs=1) for d in BU_Q],
+    "jobs": [job("h_inter-" + d, 8000, 2, 40000, 3, fuzz_secs=300, fuzz_procs=1) for d in BU_Q],
     "rule": "the C09 call-graph generator restricted to the documented domain of the bottom-up analyzer (main is the only function without callers and is not recursive; "
             "recursion among other functions allowed) analysed by bottom_up_inter_analyzer<cg, summary domain, forward domain> for (sdbm, interval), (interval, interval), (sdbm, "
             "sdbm), (term_int, interval): block invariants of the top-down phase vs concrete executions from main as in C09; every terminating concrete run of a non-main "
@@ -255,7 +256,7 @@ CHECKS["C10"] = {
 }
 BWD_KNOWN_NOTE = "array_adaptive backward transfer functions (h_bwd-aa_int) carry recorded findings, see known_findings.json"
 CHECKS["C11"] = {
-    "jobs": [job("h_bwd-" + d, 1200, 2, 20000, 4, fuzz_secs=300, fuzz_procs=2) for d in BWD_Q] + [job("h_bwd-aa_int", 800, 1, 8000, 2)],
+    "jobs": [job("h_bwd-" + d, 6000, 2, 30000, 4, fuzz_secs=300, fuzz_procs=2) for d in BWD_Q] + [job("h_bwd-aa_int", 800, 1, 8000, 2)],
     "rule": "programs of the C01 generator with an exit that every block can reach (edges added by construction), numeric/boolean/callsite statements (arrays for the "
             "array_adaptive variant), 1-2 appended assertions; necessary_preconditions_fixpoint_iterator in error mode (error states = violated assertions) and in good mode "
             "(post-condition = 0-2 decoded constraints), with supplied forward invariants none or those of a real forward run; 8-24 concrete executions, starting at any block "
@@ -279,7 +280,7 @@ CHECKS["C05"]["assumptions"] = PROG_ASSUME + CALL_ASSUME
 
 RGN_Q = ["interval", "bool_int", "sdbm", "constant", "sign_constant"]
 CHECKS["C15"] = {
-    "jobs": [job("h_rgn-" + d, 1200, 2, 20000, 4, fuzz_secs=300, fuzz_procs=2) for d in RGN_Q],
+    "jobs": [job("h_rgn-" + d, 3000, 2, 20000, 4, fuzz_secs=300, fuzz_procs=2) for d in RGN_Q],
     "rule": "region programs built by a generator on top of the C01 one: 1-3 regions (int / bool / reference / unknown), 2-5 reference variables with a home region, region_init "
             "in the entry block, make_ref with distinct allocation sites (also in loops), aliases (gep with offset 0, select_ref incl. NULL arms), gep_ref with non-zero offsets "
             "within and across regions, store_to_ref / load_from_ref of ints, bools and references, region_copy, region_cast through unknown regions, remove_ref, ref_to_int / "
